@@ -63,6 +63,8 @@ def cases(tier, seed):
         ws = _weights(C)
         if tier == "quick" and len(ws) > 7:
             ws = ws[::3]
+        # positive weights that do not sum to one (a pruned sub-mixture, un-normalised masses): the value is still ln sum_c w_c N_c
+        ws = ws + [[0.25, 0.375, 0.125][:C], [2.0, 1.0, 4.0][:C]]
         for i in range(5):
             for j in range(5):
                 if tier == "quick" and (i + j) % 2 and C > 1:
@@ -277,7 +279,7 @@ def run_case(case):
         for a, b in zip(edges[:-1], edges[1:]):
             g = np.linspace(a, b, 40001)
             total += float(np.trapezoid(np.exp(np.asarray(m.log_likelihood(g[:, None]))), g))
-        c.check(abs(total - 1.0) <= 1e-5, "normalised", f"integral of exp(log_likelihood) = {total!r}", tags)
+        c.check(abs(total - float(w.sum())) <= 1e-5 * max(1.0, float(w.sum())), "normalised", f"integral of exp(log_likelihood) = {total!r}, sum of the weights = {float(w.sum())!r}", tags)
         c.count("integrated")
     c.states = n
     c.traces = c.transitions
